@@ -32,7 +32,8 @@ pub open spec fn pv(p: Pattern) -> PV {
 }
 
 pub open spec fn has_dot(s: Seq<char>) -> bool { b_contains(bytes(s), bytes(seq!['.'])) }
-pub open spec fn fold(ins: bool, t: Seq<char>) -> Seq<char> { if ins { lower(t) } else { t } }
+// the 'i' prefix is ASCII-case-insensitive (C07): the stored text is ASCII-folded, non-ASCII characters stay as written
+pub open spec fn fold(ins: bool, t: Seq<char>) -> Seq<char> { if ins { ascii_lower(t) } else { t } }
 pub open spec fn first_is(s: Seq<char>, c: char) -> bool { s.len() > 0 && s[0] == c }
 pub open spec fn last_is(s: Seq<char>, c: char) -> bool { s.len() > 0 && s[s.len() - 1] == c }
 
